@@ -14,6 +14,7 @@ package dns
 
 import (
 	"context"
+	"errors"
 	"fmt"
 	"net"
 	"net/netip"
@@ -43,8 +44,13 @@ func TestC07_UpstreamInit(t *testing.T) {
 	defer func() { newUpstreamFunc = origNew }()
 	var initCalls atomic.Int64
 	var targetHost atomic.Value
+	var failLeft atomic.Int64 // injected initialisation failures still to come (raced upstream only)
 	newUpstreamFunc = func(ctx context.Context, raw *url.URL, network string, r resolveUpstreamIp46Func) (*Upstream, error) {
 		if h, _ := targetHost.Load().(string); h != "" && raw.Hostname() == h {
+			if failLeft.Load() > 0 {
+				failLeft.Add(-1)
+				return nil, errors.New("c07: injected fault: upstream cannot be initialised right now")
+			}
 			initCalls.Add(1) // initialisations of the raced upstream only
 		}
 		return origNew(ctx, raw, network, r)
@@ -114,6 +120,20 @@ func TestC07_UpstreamInit(t *testing.T) {
 		rrs, ips := c07GenAnswersSimple(t, name, v4, v6)
 		want, ri := c07RefResponse(p, name, qt, ips, tag)
 		wantAsis, _ := c07RefResponse(p, name, qt, ips, "asis")
+
+		// ---- fault: the first 0-2 initialisations of the target fail (host does not
+		// resolve, bootstrap resolver down). A question routed to it must then fail -
+		// it must never be handed to another resolver (as-is or another upstream) as
+		// if the rules had said so. The next call retries the initialisation.
+		failN := rapid.SampledFrom([]int{0, 0, 1, 2}).Draw(t, "init_failures")
+		failLeft.Store(int64(failN))
+		for i := 0; i < failN; i++ {
+			idx, up, err := s.RequestSelect(ctx, name, qt)
+			if err == nil && (int(idx) != target || up == nil) {
+				t.Fatalf("the rules send %q to upstream %q, whose initialisation failed (injected fault, attempt %d): RequestSelect returned index %v upstream %v without an error - the question goes somewhere the rules do not name\n%s", name, tag, i+1, idx, up, p)
+			}
+		}
+		failLeft.Store(0)
 
 		judgeUp := func(who string, up *Upstream) {
 			msg := new(dnsmessage.Msg)
@@ -240,7 +260,7 @@ func TestC07_UpstreamInit(t *testing.T) {
 		}
 
 		key := ""
-		cl := []string{fmt.Sprintf("callers_%d", nCallers), fmt.Sprintf("initialiser_calls_%d", initRace)}
+		cl := []string{fmt.Sprintf("callers_%d", nCallers), fmt.Sprintf("initialiser_calls_%d", initRace), fmt.Sprintf("init_failures_first_%d", failN)}
 		if want != wantAsis {
 			key = p.String() + "#" + strings.Join(schedule, ",") + fmt.Sprintf("#%s/%d/%v", name, qt, ips)
 			cl = append(cl, "recognition_changes_decision")
